@@ -287,14 +287,13 @@ func calcSegmentAvailabilityTime(a *asset, rep *RepData, nr uint32, cfg *Respons
 	seg := rep.Segments[relNr]
 	mediaRef := cfg.StartTimeS * rep.MediaTimescale // TODO. Add period offset
 
-	// Check interval validity
-	segAvailTimeS := float64(int(seg.EndTime)+wrapTime+mediaRef) / float64(rep.MediaTimescale)
 	ato := cfg.getAvailabilityTimeOffsetS()
 	if ato == +math.Inf(1) {
 		return int64(cfg.StartTimeS) * 1000, nil
 	}
-	segAvailTimeS -= ato
-	milliSeconds := int64(segAvailTimeS * 1_000)
+	// The segment is not available before its end, so the time is rounded up to a whole millisecond.
+	segAvailTimeS := float64(int(seg.EndTime)+wrapTime+mediaRef)/float64(rep.MediaTimescale) - ato
+	milliSeconds := int64(math.Ceil(math.Round(segAvailTimeS*1_000_000) / 1_000))
 	return milliSeconds, nil
 }
 
